@@ -138,9 +138,9 @@ def single_state_counts(mdib):
     return [h for h, n in seen.items() if n > 1]
 
 
-def run_history(ctx, mdib_path, rng, n_tx, hooks=(), scripts=None):
+def run_history(ctx, mdib_path, rng, n_tx, hooks=(), scripts=None, instance_id=1):
     """Run one history on a fresh provider; returns (world, history, infos)."""
-    p = lb.Provider(mdib_path=mdib_path, start=False, role_providers=False)
+    p = lb.Provider(mdib_path=mdib_path, start=False, role_providers=False, instance_id=instance_id)
     w = tx.World(p, rng)
     w.mdib_path = mdib_path
     history, infos = [], []
@@ -281,7 +281,7 @@ def run(ctx, hook_cls=C02Hook, prop='C02', drv='drv_c02'):
     for hi in range(n_hist):
         rng = ctx.subrng('hist', hi)
         path = MDIBS[hi % len(MDIBS)]
-        w, history, infos = run_history(ctx, path, rng, n_tx, [hook_cls(ctx)])
+        w, history, infos = run_history(ctx, path, rng, n_tx, [hook_cls(ctx)], instance_id=[1, 0, None, 7][hi % 4])
         for s, info in zip(history, infos):
             ctx.case({'h': hi, 's': s}, nontrivial=bool(s['calls']),
                      sample={'script': s, 'outcome': info['outcome']} if (hi == 0 and len(ctx.samples) < 5 and s['calls']) else None)
